@@ -5,7 +5,7 @@ Import ListNotations.
 Require Import Repl Tables MBase St.
 Open Scope N_scope.
 
-Inductive tmode := Txt | Lt | OName (acc : str) | ORest (name : str) (slash : bool) | CName (acc : str) | CRest (name : str) | Bad.
+Inductive tmode := Txt | Lt | OName (acc : str) | ORest (name : str) (slash : bool) | CName (acc : str) | CRest (name : str) | Decl | Bad.
 Definition is_name_char (c : rune) : bool := ((97 <=? c) && (c <=? 122)) || ((65 <=? c) && (c <=? 90)) || ((48 <=? c) && (c <=? 57)).
 Definition tstate := (tmode * list str)%type.      (* stack: innermost first *)
 Definition close (n : str) (stk : list str) : tstate :=
@@ -14,7 +14,8 @@ Definition tstep (st : tstate) (c : rune) : tstate :=
   let '(m, stk) := st in
   match m with
   | Txt => if c =? 60 then (Lt, stk) else (Txt, stk)
-  | Lt => if c =? 47 then (CName [], stk) else if is_name_char c then (OName [c], stk) else (Bad, stk)
+  | Lt => if c =? 47 then (CName [], stk) else if is_name_char c then (OName [c], stk)
+          else if (c =? 63) || (c =? 33) then (Decl, stk) else (Bad, stk)      (* <?xml ... ?> and <!DOCTYPE ...>: skipped up to > *)
   | OName acc => if is_name_char c then (OName (c :: acc), stk)
                  else if c =? 62 then (Txt, rev acc :: stk)
                  else if c =? 47 then (ORest (rev acc) true, stk) else (ORest (rev acc) false, stk)
@@ -23,6 +24,7 @@ Definition tstep (st : tstate) (c : rune) : tstate :=
   | CName acc => if is_name_char c then (CName (c :: acc), stk)
                  else if c =? 62 then close (rev acc) stk else (CRest (rev acc), stk)
   | CRest n => if c =? 62 then close n stk else (CRest n, stk)
+  | Decl => if c =? 62 then (Txt, stk) else (Decl, stk)
   | Bad => (Bad, stk)
   end.
 Definition run (x : str) (st : tstate) : tstate := fold_left tstep x st.
